@@ -93,7 +93,7 @@ CHECKS = {
          'DESIGN.md section 5, C16'),
  'C01': ('exploration',
          'exhaustive enumeration of statement shapes x placements x docformats (singles and ordered pairs), file-level and multi-file items as full driver runs, batched 20 per run with bisection',
-         'A 145-shape statement alphabet - one item per shortcut in the AST builder, astutils, the model, the extensions and the renderers (definitions, decorators incl. overload/deprecated/property/old-style wrappers, class headers, every assignment and annotation form, Final/ClassVar/TypeAlias/TypeVar, __doc__/__all__/__docformat__ assignments incl. unevaluable values, imports, control-flow containers, string statements, every ast.expr class as value/default/annotation/decorator argument/base, regex constants incl. pathological ones, depth and size items, zope/attrs/deprecate extension inputs, PEP 695 syntax) - is instantiated in 6 placements and run under all 5 docformats; all ordered pairs of a 40-shape collision subset (thorough: of all shapes in module and class scope under 3 docformats, ~120 k cases) share one scope. 46 file-level items (undecodable, unparsable, odd names, odd tree shapes) sit next to a good module and 8 multi-file projects exercise cycles and re-exports of missing or unparsable modules. Each run must return with status 0/2/3 without exception or hang, write index, summary pages, both search indexes (valid JSON), objects.inv (inflatable) and one page per module; unparsable files are named on stdout and the sibling stays documented. Failing batches are bisected to single cases and pairs are attributed to the failing component.',
+         'A 208-shape statement alphabet - one item per shortcut in the AST builder, astutils, the model, the extensions and the renderers (definitions, decorators incl. overload/deprecated/property/old-style wrappers, class headers, every assignment and annotation form, Final/ClassVar/TypeAlias/TypeVar, __doc__/__all__/__docformat__ assignments incl. unevaluable values, imports, control-flow containers, string statements, every ast.expr class as value/default/annotation/decorator argument/base, regex constants incl. pathological ones, depth and size items, zope/attrs/deprecate extension inputs, PEP 695 syntax) - is instantiated in 6 placements and run under all 5 docformats; all ordered pairs of a 40-shape collision subset (thorough: of all shapes in module and class scope under 3 docformats, ~120 k cases) share one scope. 46 file-level items (undecodable, unparsable, odd names, odd tree shapes) sit next to a good module and 8 multi-file projects exercise cycles and re-exports of missing or unparsable modules. Each run must return with status 0/2/3 without exception or hang, write index, summary pages, both search indexes (valid JSON), objects.inv (inflatable) and one page per module; unparsable files are named on stdout and the sibling stays documented. Failing batches are bisected to single cases and pairs are attributed to the failing component.',
          'Trusted: the alphabet as a faithful cover of the code\'s branches (new branches need new items); in-process driver.main (a conformance subset runs as subprocess in C18).',
          'DESIGN.md section 5, C01'),
  'C18': ('model_checking',
